@@ -467,6 +467,11 @@ def check_prune_dist(ctx, ex, p, drv, loop, F, m, st):
                 ctx.check(ok_app, rule, "delay-line|content", dl["append"].loc(), "each iteration appends exactly the starts its mask pruned", found=repr(av))
                 # the removal must be by value (isin), negated
                 ok_rm = "isin" in mk and "invert" in mk
+                # np.isin(candidates, popped): membership of each CANDIDATE in the popped set (the mask has the candidates' length)
+                j = mk.find("isin(")
+                if ok_rm and j != -1:
+                    first_arg = mk[j + 5:]
+                    ok_rm = first_arg.startswith(repr(Scur)) or first_arg.startswith("[" + repr(Scur) + "]")
                 ctx.check(ok_rm, rule, "delay-line|removal", popped.loc(), "the popped starts are removed from the candidates by value (~np.isin)", found=mk[:200])
                 dist = dl["delay"] + 1
                 gap = (dist - m).as_const()
